@@ -139,6 +139,63 @@ def generate_sources(ctx):
     return out
 
 
+WIRE_CFG = """SPECIFICATION WireSpec
+CONSTANTS
+  Fold <- MCFold
+  Good = {"A", "B"}
+  Unusable = {}
+  Failing = {}
+  Clients = {}
+  Reqs <- MCReqs
+  MaxLoads = 0
+  MaxHs = 0
+  Refresh = 1
+  SplitStore = FALSE
+  SpinOnUnusable = FALSE
+%s
+INVARIANTS WireAsStated
+CHECK_DEADLOCK FALSE
+"""
+
+
+def wiring(ctx):
+    """main's wiring: listeners x certificate sources x strictness through config.Load + main.makeTLSConfig"""
+    cases = os.path.join(ctx.tmp, "c11.wire")
+    g = ctx.tlc("CertStore_MC", cfg_text=WIRE_CFG % "", workers=2, json_sink=cases, timeout=300)
+    if not ctx.need_tlc_ok(g, "CertStore listeners"):
+        return False
+    dev = ctx.tlc("CertStore_MC", cfg_text=WIRE_CFG % "CONSTANT Effective <- SharedStrict", workers=1, timeout=300)
+    if dev.violated != "WireAsStated":
+        ctx.inconclusive("non-vacuity: the deviation SharedStrict should violate WireAsStated on the model but TLC reports %r %s"
+                         % (dev.violated, (dev.error or "")[:300]))
+        return False
+    r = ctx.gotest(".", ["main/c11_test.go"], "^TestVerifC11Wiring$", env={"VERIF_IN": cases}, timeout=600)
+    if not ctx.need_go_ok(r, "C11 wiring"):
+        return False
+    errs = r.of_kind("error")
+    if errs:
+        ctx.inconclusive("C11 wiring: harness error: %s" % errs[0].get("msg"))
+        return False
+    s = r.summary
+    ctx.log("wiring: %d listener configurations through config.Load + main.makeTLSConfig, %d real handshakes; %d failed, %.0fs"
+            % (s["cases"], s["handshakes"], s["fails"], r.wall))
+    ctx.take_failures(r, "wiring")
+    ctx.cover("wiring", traces_validated_against_impl=s["cases"], evaluations=s["handshakes"], distinct_nontrivial=s["distinct_nontrivial"],
+              samples=(s.get("samples") or [])[:1])
+    # binding self-test: listener 2 of a two-listener case is expected to present something else
+    c = first_line(cases, lambda c: len(c["listeners"]) == 2)
+    q = c["listeners"][1]["q"][1]
+    q["want"] = 0 if q["want"] else 1
+    one = os.path.join(ctx.tmp, "c11.wire.self")
+    vf.write_ndjson(one, [c])
+    t = ctx.gotest(".", ["main/c11_test.go"], "^TestVerifC11Wiring$", env={"VERIF_IN": one}, timeout=600)
+    if not ctx.need_go_ok(t, "C11 wiring self-test"):
+        return False
+    if not t.of_kind("fail"):
+        ctx.inconclusive("binding self-test: a corrupted listener expectation was NOT rejected by the wiring harness")
+    return True
+
+
 def first_line(path, pred):
     with open(path) as fh:
         for line in fh:
@@ -153,13 +210,60 @@ def harness(ctx, env, what, timeout=600):
     if not ctx.need_go_ok(r, what):
         return None
     if "WARNING: DATA RACE" in r.out:
-        ctx.inconclusive("%s: the race detector reported a data race (C06 territory)\n%s" % (what, r.out[:3000]))
-        return None
+        # A race between a handshake reading the published set and its replacement IS the property
+        # ("a handshake never sees a mixture of two sets"): when fabio's own code is on both sides or
+        # on one side of the report it is a verdict; a race inside the harness alone is not.
+        code, where = race_in_code(r.out)
+        if not code:
+            ctx.inconclusive("%s: the race detector reported a data race inside the harness\n%s" % (what, r.out[:3000]))
+            return None
+        ctx.violation({"sub": "race", "clause": "data-race", "where": where[0] if where else "?"},
+                      "race: the race detector reports unsynchronised access to certificate state while handshakes run "
+                      "concurrently with a set replacement (frames in fabio: %s):\n%s" % (", ".join(where[:6]), first_race(r.out)),
+                      replay={"sub": "race", "case": {"frames": where[:12]}})
     errs = r.of_kind("error")
     if errs:
         ctx.inconclusive("%s: harness error: %s" % (what, errs[0].get("msg")))
         return None
     return r
+
+
+def race_blocks(out):
+    blocks, cur = [], None
+    for line in out.splitlines():
+        if line.startswith("WARNING: DATA RACE"):
+            cur = [line]
+        elif cur is not None:
+            cur.append(line)
+            if line.startswith("=================="):
+                blocks.append(cur)
+                cur = None
+    if cur:
+        blocks.append(cur)
+    return blocks
+
+
+def race_in_code(out):
+    """(True, [file:line of fabio frames]) when a report has a frame in fabio's cert package itself (not a harness file)"""
+    import re
+    where = []
+    for b in race_blocks(out):
+        for line in b:
+            m = re.match(r"\s+(/\S+?/(cert|main)?/?([\w.-]+\.go)):(\d+)", line)
+            if not m:
+                continue
+            path, base = m.group(1), m.group(3)
+            if base.startswith("zz_verif_") or "/internal/verifx/" in path or not path.startswith(vf.REPO.rstrip("/") + "/"):
+                continue
+            w = "%s:%s" % (os.path.relpath(path, vf.REPO), m.group(4))
+            if w not in where:
+                where.append(w)
+    return bool(where), where
+
+
+def first_race(out):
+    b = race_blocks(out)
+    return "\n".join(b[0][:40]) if b else ""
 
 
 def validate(ctx, trace, what, eager=False):
@@ -303,6 +407,9 @@ def run(ctx):
     if not s.get("watch_selftest_rejected"):
         ctx.inconclusive("binding self-test: a corrupted watcher history was NOT rejected by the harness")
 
+    if not wiring(ctx):
+        return
+
     # C->S: the recorded concurrent execution must be a behaviour of the specification
     v = validate(ctx, trace, "trace")
     nev = sum(1 for _ in open(trace))
@@ -364,6 +471,17 @@ def replay(ctx, rp):
         return
     one = os.path.join(ctx.tmp, "c11.replay")
     vf.write_ndjson(one, [case])
+    if feats.get("sub") == "wiring":
+        one = os.path.join(ctx.tmp, "c11.replay")
+        vf.write_ndjson(one, [case])
+        r = ctx.gotest(".", ["main/c11_test.go"], "^TestVerifC11Wiring$", env={"VERIF_IN": one}, timeout=600)
+        if ctx.need_go_ok(r, "C11 replay"):
+            ctx.cover(evaluations=1)
+            ctx.take_failures(r, "wiring")
+        return
+    if feats.get("sub") == "race":
+        ctx.inconclusive("a race report is replayed by running the check again (bin/check C11)")
+        return
     if feats.get("sub") == "source" and feats.get("source") == "file":
         env = {"VERIF_IN_FILE": one}
     elif feats.get("sub") == "source":
